@@ -1,7 +1,7 @@
 (* C19 - streaming content decoding equals one-shot decoding for every split.
    Only property theorems here, each closed by [exact]. *)
-From Coq Require Import List NArith Bool.
-From Wpull Require Import Model.Decomp Proofs.DecompProofs.
+From Coq Require Import List NArith Bool Lia.
+From Wpull Require Import Lib.Conn Model.Decomp Model.DecompGlue Proofs.DecompProofs Proofs.DecompGlueProofs.
 Import ListNotations.
 Open Scope N_scope.
 
@@ -54,3 +54,94 @@ Example C19_nonvacuous :
   /\ run bool (fun _ => false) toy_step (fun s => s) (fun _ => []) KGzip [[31]; [7; 8]; [9]] = None
   /\ run bool (fun _ => false) toy_step (fun s => s) (fun _ => []) KDeflate [[1]; [7; 8]; [255; 0]] = None.
 Proof. vm_compute. repeat split. Qed.
+
+(* ---------------------------------------------------------------------------
+   The glue of http/stream.py (Model/DecompGlue.v).
+
+   PIECES level: whatever Content-Encoding value the response carries, whatever
+   non-empty pieces the body reader hands to _decompress_data: what read_body
+   has written to the file when it returns is the one-shot reference decoding
+   of the concatenated pieces under the decoder that value selects, and when
+   there is no such decoding (corrupt / truncated) the caller gets
+   ProtocolError - never NetworkError, never a success. *)
+Theorem C19_stream_glue :
+  forall zst zinit zstep zeof zfl (raw : bool) (ce : list N) (pieces : list (list N)),
+    Forall (fun p => p <> []) pieces ->
+    gres_view (glue_run zst zinit zstep zeof zfl raw ce None pieces)
+    = ref_view (reference zst zinit zstep zeof zfl (select_kind raw ce) (concat pieces)).
+Proof. exact stream_glue. Qed.
+Print Assumptions C19_stream_glue.
+
+(* WIRE level: the pieces are what the three body readers deliver from the bytes
+   on the connection under segmentation oracle [o]; for EVERY oracle the result
+   is the reference decoding of the entity body (all bytes up to EOF / the first
+   Content-Length bytes / the concatenated chunk contents of a well-framed
+   chunked body - the Transfer-Encoding: chunked + Content-Encoding: gzip
+   combination included). *)
+Theorem C19_stream_glue_wire :
+  forall zst zinit zstep zeof zfl (o : oracle) (raw : bool) (ce : list N),
+    (forall wire,
+        gres_view (read_body zst zinit zstep zeof zfl o raw ce SClose wire)
+        = ref_view (reference zst zinit zstep zeof zfl (select_kind raw ce) wire))
+    /\ (forall n wire, (n <= length wire)%nat ->
+        gres_view (read_body zst zinit zstep zeof zfl o raw ce (SLength n) wire)
+        = ref_view (reference zst zinit zstep zeof zfl (select_kind raw ce) (firstn n wire)))
+    /\ (forall chunks wire rest, framed chunks wire rest ->
+        gres_view (read_body zst zinit zstep zeof zfl o raw ce (SChunked (map (@length N) chunks)) wire)
+        = ref_view (reference zst zinit zstep zeof zfl (select_kind raw ce) (concat chunks))).
+Proof. exact stream_glue_wire. Qed.
+Print Assumptions C19_stream_glue_wire.
+
+(* a length-delimited body cut short by the peer is never a success, whatever
+   the decoder made of the part that arrived *)
+Theorem C19_stream_glue_short_is_error :
+  forall zst zinit zstep zeof zfl (o : oracle) (raw : bool) (ce : list N) n wire f,
+    (length wire < n)%nat ->
+    read_body zst zinit zstep zeof zfl o raw ce (SLength n) wire <> GOk f.
+Proof. exact stream_glue_length_short. Qed.
+Print Assumptions C19_stream_glue_short_is_error.
+
+(* _setup_decompressor: a decoder is selected exactly by the values that are
+   'gzip' / 'deflate' up to ASCII case - nothing else (no surrounding blanks, no
+   token list, no 'x-gzip'), and never in raw mode *)
+Theorem C19_content_encoding_selection :
+  forall ce : list N,
+    (select_kind false ce = KGzip <-> map ascii_lower ce = s_gzip)
+    /\ (select_kind false ce = KDeflate <-> map ascii_lower ce = s_deflate)
+    /\ select_kind true ce = KIdentity.
+Proof. exact content_encoding_selection. Qed.
+Print Assumptions C19_content_encoding_selection.
+
+(* Non-vacuity: "GZip" selects gzip, " gzip", "x-gzip" and "gzip, deflate" select
+   nothing; the toy machine through the chunked reader under two different
+   oracles (single bytes / whole reads): a gzip-sniffed body in two well-framed
+   chunks is decoded, its truncation is a ProtocolError, a short
+   length-delimited body is a NetworkError. *)
+Example C19_glue_nonvacuous :
+  select_kind false [71; 90; 105; 112] = KGzip
+  /\ select_kind false [32; 103; 122; 105; 112] = KIdentity
+  /\ select_kind false [120; 45; 103; 122; 105; 112] = KIdentity
+  /\ select_kind false [103; 122; 105; 112; 44; 32; 100; 101; 102; 108; 97; 116; 101] = KIdentity
+  /\ framed [[31; 7]; [8; 0]] [50; 13; 10; 31; 7; 13; 10; 50; 13; 10; 8; 0; 13; 10; 48; 13; 10; 13; 10] [13; 10]
+  /\ read_body bool (fun _ => false) toy_step (fun s => s) (fun _ => []) (fun _ => O) false s_gzip
+       (SChunked [2; 2]%nat) [50; 13; 10; 31; 7; 13; 10; 50; 13; 10; 8; 0; 13; 10; 48; 13; 10; 13; 10] = GOk [31; 7; 8]
+  /\ read_body bool (fun _ => false) toy_step (fun s => s) (fun _ => []) (fun _ => 9%nat) false s_gzip
+       (SChunked [2; 2]%nat) [50; 13; 10; 31; 7; 13; 10; 50; 13; 10; 8; 0; 13; 10; 48; 13; 10; 13; 10] = GOk [31; 7; 8]
+  /\ read_body bool (fun _ => false) toy_step (fun s => s) (fun _ => []) (fun _ => O) false s_gzip
+       (SChunked [2; 1]%nat) [50; 13; 10; 31; 7; 13; 10; 49; 13; 10; 8; 13; 10; 48; 13; 10; 13; 10] = GErr GProtocolErr [31; 7; 8]
+  /\ read_body bool (fun _ => false) toy_step (fun s => s) (fun _ => []) (fun _ => O) false s_gzip
+       (SLength 5) [31; 7; 8] = GErr GNetworkErr [31; 7; 8].
+Proof.
+  repeat split; try (vm_compute; reflexivity).
+  change [50; 13; 10; 31; 7; 13; 10; 50; 13; 10; 8; 0; 13; 10; 48; 13; 10; 13; 10]
+    with ([50; 13] ++ 10 :: [31; 7] ++ [13] ++ 10 :: ([50; 13] ++ 10 :: [8; 0] ++ [13] ++ 10 :: ([48; 13] ++ 10 :: [13; 10]))).
+  assert (L : forall l, Forall (fun x => x <> 10) l -> (length l <= 10)%nat -> line_ok l).
+  { intros l H1 H2. split.
+    - intros Hin. rewrite Forall_forall in H1. now apply (H1 10).
+    - unfold line_limit. lia. }
+  assert (L2 : forall l, Forall (fun x => x <> 10) l -> (length l <= 1)%nat -> nl_ok l).
+  { intros l H1 H2. split; [|assumption].
+    intros Hin. rewrite Forall_forall in H1. now apply (H1 10). }
+  repeat (first [apply framed_chunk | apply framed_last]); try (intro; discriminate);
+    first [apply L2 | apply L]; try (cbn; lia); repeat constructor; intro; discriminate.
+Qed.
